@@ -51,6 +51,15 @@ def Outcome.isPanic {α : Type} : Outcome α → Bool
   | .panic _ => true
   | _ => false
 
+def Outcome.isOk {α : Type} : Outcome α → Bool
+  | .ok _ => true
+  | _ => false
+
+def Outcome.isErr {α : Type} (o : Outcome α) (e : DfError) : Bool :=
+  match o with
+  | .err e' => e' == e
+  | _ => false
+
 inductive Version where
   | v3 | v4crude | v4
   deriving DecidableEq, Repr, Inhabited
@@ -122,18 +131,19 @@ def Header.checkRest (h : Header) : Bool :=
     && decide (0 ≤ h.numItems) && decide (0 ≤ h.numData) && decide (0 ≤ h.sizeItems)
     && decide (0 ≤ h.sizeData) && decide (h.sizeItems % 4 = 0)
 
+/-- the header struct as filled from a 36-byte buffer -/
+def Header.ofBuf (buf : List UInt8) : Header :=
+  let ws := wordsOfBytes (buf.drop 4)
+  { magic := buf.take 4, version := ws.getD 0 0, size := ws.getD 1 0, swaplen := ws.getD 2 0,
+    numItemTypes := ws.getD 3 0, numItems := ws.getD 4 0, numData := ws.getD 5 0,
+    sizeItems := ws.getD 6 0, sizeData := ws.getD 7 0 }
+
 /-- `Header::read`: one `read` of 36 bytes into a zeroed struct; `n` bytes were obtained. -/
 def Header.read (bytes : List UInt8) : Outcome Header :=
-  let got := bytes.take headerSize
-  let n := got.length
+  let n := (bytes.take headerSize).length
   if n < 8 then .err .tooShortHeaderVersion
   else
-    let buf := got ++ List.replicate (headerSize - n) (0 : UInt8)
-    let ws := wordsOfBytes (buf.drop 4)
-    let h : Header :=
-      { magic := buf.take 4, version := ws.getD 0 0, size := ws.getD 1 0, swaplen := ws.getD 2 0,
-        numItemTypes := ws.getD 3 0, numItems := ws.getD 4 0, numData := ws.getD 5 0,
-        sizeItems := ws.getD 6 0, sizeData := ws.getD 7 0 }
+    let h := Header.ofBuf (bytes.take headerSize ++ List.replicate (headerSize - n) (0 : UInt8))
     match h.checkVersion with
     | some e => .err e
     | none =>
@@ -241,13 +251,19 @@ def Reader.itemHeader (r : Reader) (index : Nat) : Outcome (Int × Int) :=
         | a :: b :: _ => .ok (a, b)
         | _ => .panic "item_header: [..2]"
 
+/-- `!(t.type_id > previous_type_id)` for the previous entry, if any -/
+def notAbovePrev (prev : Option Int) (typeId : Int) : Bool :=
+  match prev with
+  | some p => decide (¬ (typeId > p))
+  | none => false
+
 /-- first block of `check`: the item type table (after the D13 repair: `start` is compared with
 the expected start before it is subtracted from `num_items`) -/
 def checkTypes (numItems : Int) : List ItemType → Int → Option Int → List Int → Outcome Unit
   | [], expected, _, _ => if expected ≠ numItems then .err .malformed else .ok ()
   | t :: ts, expected, prev, seen =>
     if ¬ (0 ≤ t.typeId ∧ t.typeId < 65536) then .err .malformed
-    else if (match prev with | some p => decide (¬ (t.typeId > p)) | none => false) then .err .malformed
+    else if notAbovePrev prev t.typeId then .err .malformed
     else if t.start ≠ expected then .err .malformed
     else if t.num < 0 then .err .malformed
     else
@@ -283,16 +299,20 @@ def checkItems (r : Reader) : Nat → Nat → Nat → Outcome Unit
           else if offset + 8 + asUsize size > asUsize r.sizeItems then .err .malformed
           else checkItems r n (i + 1) (offset + 8 + asUsize size)
 
+/-- the `uncomp_data_sizes[i] < 0` test of the third block (`none`: passed or no size table) -/
+def udsCheck (r : Reader) (i : Nat) : Option (Outcome Unit) :=
+  match r.uncompSizes with
+  | some uds =>
+    match uds[i]? with
+    | none => some (.panic "check: uncomp_data_sizes[i]")
+    | some u => if u < 0 then some (.err .malformed) else none
+  | none => none
+
 /-- third block of `check`: data offsets and uncompressed sizes -/
 def checkData (r : Reader) : Nat → Nat → Int → Outcome Unit
   | 0, _, _ => .ok ()
   | n + 1, i, previous =>
-    match (match r.uncompSizes with
-           | some uds =>
-             match uds[i]? with
-             | none => some (Outcome.panic "check: uncomp_data_sizes[i]")
-             | some u => if u < 0 then some (Outcome.err .malformed) else none
-           | none => none) with
+    match udsCheck r i with
     | some o => o
     | none =>
       match r.dataOffsets[i]? with
@@ -323,7 +343,8 @@ def checkTypeIds (r : Reader) : List ItemType → Outcome Unit
     | some e =>
       match checkTypeItems r t.typeId (asUsize e - asUsize t.start) (asUsize t.start) with
       | .ok () => checkTypeIds r ts
-      | o => o
+      | .err e => .err e
+      | .panic s => .panic s
 
 /-- `Reader::check` -/
 def Reader.check (r : Reader) : Outcome Unit :=
@@ -333,13 +354,25 @@ def Reader.check (r : Reader) : Outcome Unit :=
     | .ok () =>
       match checkData r (asUsize r.numData) 0 0 with
       | .ok () => checkTypeIds r r.itemTypes
-      | o => o
-    | o => o
-  | o => o
+      | .err e => .err e
+      | .panic s => .panic s
+    | .err e => .err e
+    | .panic s => .panic s
+  | .err e => .err e
+  | .panic s => .panic s
 
 /-- `read_exact` of `n` bytes from the remaining input -/
 def readExact (n : Nat) (rest : List UInt8) : Option (List UInt8 × List UInt8) :=
   if rest.length < n then none else some (rest.take n, rest.drop n)
+
+/-- the read of `uncomp_data_sizes`, present only in version 4 files -/
+def readUds (compressed : Bool) (n : Nat) (rest : List UInt8) :
+    Option (Option (List UInt8) × List UInt8) :=
+  if compressed then
+    match readExact n rest with
+    | none => none
+    | some (b, rest) => some (some b, rest)
+  else some (none, rest)
 
 /-- `Reader::new` on an in-memory file -/
 def Reader.new (bytes : List UInt8) : Outcome Reader :=
@@ -365,9 +398,7 @@ def Reader.new (bytes : List UInt8) : Outcome Reader :=
             match readExact (4 * asUsize h.numData) rest with
             | none => .err .tooShort
             | some (dob, rest) =>
-              match (if version.hasCompressedData then
-                       (readExact (4 * asUsize h.numData) rest).map (fun (b, rest) => (some b, rest))
-                     else some (none, rest)) with
+              match readUds version.hasCompressedData (4 * asUsize h.numData) rest with
               | none => .err .tooShort
               | some (udb, rest) =>
                 if asUsize h.sizeItems % 4 ≠ 0 then
